@@ -100,6 +100,10 @@ func checkEmit(rec *stats.Recorder, c valCase) (msg string, known string) {
 	v := c.Value
 	rv := dyn.Build(S, t, v, dyn.BuildOpts{})
 	classes := append(labelsOf(t, v, c.Format), "direction=emit")
+	if c.AfterFailure > 0 {
+		classes = append(classes, "after_failed_marshal")
+		failedMarshal(c.AfterFailure)
+	}
 	rec.Case(classes...)
 	if nonTrivial(classes) {
 		rec.NonTrivial("emit/"+c.Format, "emit|"+c.Type+"|"+c.Format+"|"+v.Canon(), func() any { return c })
